@@ -1,25 +1,141 @@
 /* ASSUMED (oracle) contracts for the algebraic residue (DESIGN.md section 6 item 5).  Each states
  * only: pointer validity it needs, the frame, the representation invariant of its outputs and
  * return in {0,1}.  None states an algebraic fact.  A unit lists the ones it uses under
- * `assumed`, and they are copied into the evidence file. */
+ * `assumed`; they are copied into the evidence file.
+ *
+ * Ghost call logs: where a caller's postcondition must talk about WHAT was handed to an oracle
+ * and what it answered, the contract additionally records (arguments, result) of call number k
+ * in ghost slot k (k < 4).  These clauses constrain ghost variables only. */
 #ifndef VERIF_ASSUMED_H
 #define VERIF_ASSUMED_H
 #include "pre.h"
 
+#if !defined(USE_FORCE_WIDEMUL_INT64)
+#define SC_EQ(x, y) ((x).d[0] == (y).d[0] && (x).d[1] == (y).d[1] && (x).d[2] == (y).d[2] && (x).d[3] == (y).d[3])
+#define SC_KEEP(x) ((x).d[0] == __CPROVER_old((x).d[0]) && (x).d[1] == __CPROVER_old((x).d[1]) && (x).d[2] == __CPROVER_old((x).d[2]) && (x).d[3] == __CPROVER_old((x).d[3]))
+#define SC_EQ_OLD(x, y) ((x).d[0] == __CPROVER_old((y).d[0]) && (x).d[1] == __CPROVER_old((y).d[1]) && (x).d[2] == __CPROVER_old((y).d[2]) && (x).d[3] == __CPROVER_old((y).d[3]))
+#define FE_EQ(x, y) ((x).n[0] == (y).n[0] && (x).n[1] == (y).n[1] && (x).n[2] == (y).n[2] && (x).n[3] == (y).n[3] && (x).n[4] == (y).n[4])
+#define FE_KEEP(x) ((x).n[0] == __CPROVER_old((x).n[0]) && (x).n[1] == __CPROVER_old((x).n[1]) && (x).n[2] == __CPROVER_old((x).n[2]) && (x).n[3] == __CPROVER_old((x).n[3]) && (x).n[4] == __CPROVER_old((x).n[4]))
+#define FE_EQ_OLD(x, y) ((x).n[0] == __CPROVER_old((y).n[0]) && (x).n[1] == __CPROVER_old((y).n[1]) && (x).n[2] == __CPROVER_old((y).n[2]) && (x).n[3] == __CPROVER_old((y).n[3]) && (x).n[4] == __CPROVER_old((y).n[4]))
+#endif
+static inline int ge_ok(const secp256k1_ge *g) { return fe_mag(&g->x, 4) && fe_mag(&g->y, 3) && (g->infinity == 0 || g->infinity == 1); }
+static inline int ge_ok1(const secp256k1_ge *g) { return fe_mag(&g->x, 1) && fe_mag(&g->y, 1) && (g->infinity == 0 || g->infinity == 1); }
+static inline int gej_ok(const secp256k1_gej *g) { return fe_mag(&g->x, 4) && fe_mag(&g->y, 4) && fe_mag(&g->z, 1) && (g->infinity == 0 || g->infinity == 1); }
+
+/* ---- scalar multiplication / inversion ---- */
+#ifdef LOG_SCALAR_MUL
+int g_mul_n; secp256k1_scalar g_mul_a0, g_mul_b0, g_mul_r0, g_mul_a1, g_mul_b1, g_mul_r1, g_mul_a2, g_mul_b2, g_mul_r2, g_mul_a3, g_mul_b3, g_mul_r3;
+#define MUL_SLOT(i) \
+  __CPROVER_ensures(__CPROVER_old(g_mul_n) == i ==> (SC_EQ_OLD(g_mul_a##i, *a) && SC_EQ_OLD(g_mul_b##i, *b) && SC_EQ(g_mul_r##i, *r))) \
+  __CPROVER_ensures(__CPROVER_old(g_mul_n) != i ==> (SC_KEEP(g_mul_a##i) && SC_KEEP(g_mul_b##i) && SC_KEEP(g_mul_r##i)))
+#endif
 static void secp256k1_scalar_mul(secp256k1_scalar *r, const secp256k1_scalar *a, const secp256k1_scalar *b)
 __CPROVER_requires(__CPROVER_w_ok(r, sizeof(*r)) && __CPROVER_r_ok(a, sizeof(*a)) && __CPROVER_r_ok(b, sizeof(*b)))
 __CPROVER_requires(scalar_ok(a) && scalar_ok(b))
+#ifdef LOG_SCALAR_MUL
+__CPROVER_assigns(*r, g_mul_n, g_mul_a0, g_mul_b0, g_mul_r0, g_mul_a1, g_mul_b1, g_mul_r1, g_mul_a2, g_mul_b2, g_mul_r2, g_mul_a3, g_mul_b3, g_mul_r3)
+__CPROVER_ensures(g_mul_n == __CPROVER_old(g_mul_n) + 1)
+MUL_SLOT(0) MUL_SLOT(1) MUL_SLOT(2) MUL_SLOT(3)
+#else
 __CPROVER_assigns(*r)
+#endif
 __CPROVER_ensures(scalar_ok(r))
 ;
-static void secp256k1_scalar_inverse(secp256k1_scalar *r, const secp256k1_scalar *x)
-__CPROVER_requires(__CPROVER_w_ok(r, sizeof(*r)) && __CPROVER_r_ok(x, sizeof(*x)) && scalar_ok(x))
-__CPROVER_assigns(*r)
+#ifdef LOG_SCALAR_INV
+int g_inv_n; secp256k1_scalar g_inv_x0, g_inv_r0;
+#endif
+#define INV_CONTRACT \
+__CPROVER_requires(__CPROVER_w_ok(r, sizeof(*r)) && __CPROVER_r_ok(x, sizeof(*x)) && scalar_ok(x)) \
+INV_LOG \
 __CPROVER_ensures(scalar_ok(r))
+#ifdef LOG_SCALAR_INV
+#define INV_LOG __CPROVER_assigns(*r, g_inv_n, g_inv_x0, g_inv_r0) __CPROVER_ensures(g_inv_n == __CPROVER_old(g_inv_n) + 1) \
+  __CPROVER_ensures(__CPROVER_old(g_inv_n) == 0 ==> (SC_EQ_OLD(g_inv_x0, *x) && SC_EQ(g_inv_r0, *r))) \
+  __CPROVER_ensures(__CPROVER_old(g_inv_n) != 0 ==> (SC_KEEP(g_inv_x0) && SC_KEEP(g_inv_r0)))
+#else
+#define INV_LOG __CPROVER_assigns(*r)
+#endif
+static void secp256k1_scalar_inverse(secp256k1_scalar *r, const secp256k1_scalar *x) INV_CONTRACT;
+static void secp256k1_scalar_inverse_var(secp256k1_scalar *r, const secp256k1_scalar *x) INV_CONTRACT;
+
+/* ---- curve multiplication: results are arbitrary group elements in representation range ---- */
+#ifdef LOG_ECMULT
+int g_ecmult_n; secp256k1_scalar g_ecmult_na0, g_ecmult_ng0; int g_ecmult_has_na0, g_ecmult_has_ng0; secp256k1_gej g_ecmult_a0, g_ecmult_r0;
+#endif
+static void secp256k1_ecmult(secp256k1_gej *r, const secp256k1_gej *a, const secp256k1_scalar *na, const secp256k1_scalar *ng)
+__CPROVER_requires(__CPROVER_w_ok(r, sizeof(*r)) && __CPROVER_r_ok(a, sizeof(*a)) && gej_ok(a))
+__CPROVER_requires((na == NULL || (__CPROVER_r_ok(na, sizeof(*na)) && scalar_ok(na))) && (ng == NULL || (__CPROVER_r_ok(ng, sizeof(*ng)) && scalar_ok(ng))))
+#ifdef LOG_ECMULT
+__CPROVER_assigns(*r, g_ecmult_n, g_ecmult_na0, g_ecmult_ng0, g_ecmult_has_na0, g_ecmult_has_ng0, g_ecmult_a0, g_ecmult_r0)
+__CPROVER_ensures(g_ecmult_n == __CPROVER_old(g_ecmult_n) + 1)
+__CPROVER_ensures(__CPROVER_old(g_ecmult_n) == 0 ==> (g_ecmult_has_na0 == (na != NULL) && g_ecmult_has_ng0 == (ng != NULL) &&
+     (na == NULL || SC_EQ_OLD(g_ecmult_na0, *na)) && (ng == NULL || SC_EQ_OLD(g_ecmult_ng0, *ng)) &&
+     FE_EQ_OLD(g_ecmult_a0.x, a->x) && FE_EQ_OLD(g_ecmult_a0.y, a->y) && FE_EQ_OLD(g_ecmult_a0.z, a->z) && g_ecmult_a0.infinity == __CPROVER_old(a->infinity) &&
+     FE_EQ(g_ecmult_r0.x, r->x) && FE_EQ(g_ecmult_r0.y, r->y) && FE_EQ(g_ecmult_r0.z, r->z) && g_ecmult_r0.infinity == r->infinity))
+__CPROVER_ensures(__CPROVER_old(g_ecmult_n) != 0 ==> (g_ecmult_has_na0 == __CPROVER_old(g_ecmult_has_na0) && g_ecmult_has_ng0 == __CPROVER_old(g_ecmult_has_ng0) &&
+     SC_KEEP(g_ecmult_na0) && SC_KEEP(g_ecmult_ng0) && FE_KEEP(g_ecmult_a0.x) && FE_KEEP(g_ecmult_a0.y) && FE_KEEP(g_ecmult_a0.z) && g_ecmult_a0.infinity == __CPROVER_old(g_ecmult_a0.infinity) &&
+     FE_KEEP(g_ecmult_r0.x) && FE_KEEP(g_ecmult_r0.y) && FE_KEEP(g_ecmult_r0.z) && g_ecmult_r0.infinity == __CPROVER_old(g_ecmult_r0.infinity)))
+#else
+__CPROVER_assigns(*r)
+#endif
+__CPROVER_ensures(gej_ok(r))
 ;
-static void secp256k1_scalar_inverse_var(secp256k1_scalar *r, const secp256k1_scalar *x)
-__CPROVER_requires(__CPROVER_w_ok(r, sizeof(*r)) && __CPROVER_r_ok(x, sizeof(*x)) && scalar_ok(x))
+#ifdef LOG_ECMULT_GEN
+int g_gen_n; secp256k1_scalar g_gen_a0; secp256k1_gej g_gen_r0;
+#endif
+static void secp256k1_ecmult_gen(const secp256k1_ecmult_gen_context *ctx, secp256k1_gej *r, const secp256k1_scalar *a)
+__CPROVER_requires(__CPROVER_w_ok(r, sizeof(*r)) && __CPROVER_r_ok(a, sizeof(*a)) && scalar_ok(a) && __CPROVER_r_ok(ctx, sizeof(*ctx)))
+#ifdef LOG_ECMULT_GEN
+__CPROVER_assigns(*r, g_gen_n, g_gen_a0, g_gen_r0)
+__CPROVER_ensures(g_gen_n == __CPROVER_old(g_gen_n) + 1)
+__CPROVER_ensures(__CPROVER_old(g_gen_n) == 0 ==> (SC_EQ_OLD(g_gen_a0, *a) && FE_EQ(g_gen_r0.x, r->x) && FE_EQ(g_gen_r0.y, r->y) && FE_EQ(g_gen_r0.z, r->z) && g_gen_r0.infinity == r->infinity))
+__CPROVER_ensures(__CPROVER_old(g_gen_n) != 0 ==> (SC_KEEP(g_gen_a0) && FE_KEEP(g_gen_r0.x) && FE_KEEP(g_gen_r0.y) && FE_KEEP(g_gen_r0.z) && g_gen_r0.infinity == __CPROVER_old(g_gen_r0.infinity)))
+#else
 __CPROVER_assigns(*r)
-__CPROVER_ensures(scalar_ok(r))
+#endif
+__CPROVER_ensures(gej_ok(r))
+;
+static void secp256k1_ecmult_const(secp256k1_gej *r, const secp256k1_ge *a, const secp256k1_scalar *q)
+__CPROVER_requires(__CPROVER_w_ok(r, sizeof(*r)) && __CPROVER_r_ok(a, sizeof(*a)) && ge_ok(a) && __CPROVER_r_ok(q, sizeof(*q)) && scalar_ok(q))
+__CPROVER_assigns(*r)
+__CPROVER_ensures(gej_ok(r))
+;
+/* ---- Jacobian -> affine: output coordinates have magnitude 1; the input may be rescaled ---- */
+#ifdef LOG_GE_SET_GEJ
+int g_sg_n; secp256k1_ge g_sg_r0; secp256k1_gej g_sg_a0;
+#define SG_LOG __CPROVER_assigns(*r, *a, g_sg_n, g_sg_r0, g_sg_a0) __CPROVER_ensures(g_sg_n == __CPROVER_old(g_sg_n) + 1) \
+  __CPROVER_ensures(__CPROVER_old(g_sg_n) == 0 ==> (FE_EQ(g_sg_r0.x, r->x) && FE_EQ(g_sg_r0.y, r->y) && g_sg_r0.infinity == r->infinity && \
+     FE_EQ_OLD(g_sg_a0.x, a->x) && FE_EQ_OLD(g_sg_a0.y, a->y) && FE_EQ_OLD(g_sg_a0.z, a->z) && g_sg_a0.infinity == __CPROVER_old(a->infinity))) \
+  __CPROVER_ensures(__CPROVER_old(g_sg_n) != 0 ==> (FE_KEEP(g_sg_r0.x) && FE_KEEP(g_sg_r0.y) && g_sg_r0.infinity == __CPROVER_old(g_sg_r0.infinity) && \
+     FE_KEEP(g_sg_a0.x) && FE_KEEP(g_sg_a0.y) && FE_KEEP(g_sg_a0.z) && g_sg_a0.infinity == __CPROVER_old(g_sg_a0.infinity)))
+#else
+#define SG_LOG __CPROVER_assigns(*r, *a)
+#endif
+#define SET_GEJ_CONTRACT \
+__CPROVER_requires(__CPROVER_w_ok(r, sizeof(*r)) && __CPROVER_rw_ok(a, sizeof(*a)) && gej_ok(a)) \
+SG_LOG \
+__CPROVER_ensures(ge_ok1(r) && gej_ok(a) && r->infinity == __CPROVER_old(a->infinity))
+static void secp256k1_ge_set_gej(secp256k1_ge *r, secp256k1_gej *a) SET_GEJ_CONTRACT;
+static void secp256k1_ge_set_gej_var(secp256k1_ge *r, secp256k1_gej *a) SET_GEJ_CONTRACT;
+
+/* ---- x-coordinate comparison oracle with verdict log (two slots) ---- */
+#ifdef LOG_GEJ_EQ_X
+int g_eqx_n; secp256k1_fe g_eqx_x0, g_eqx_x1; int g_eqx_v0, g_eqx_v1; secp256k1_gej g_eqx_a0;
+#endif
+static int secp256k1_gej_eq_x_var(const secp256k1_fe *x, const secp256k1_gej *a)
+__CPROVER_requires(__CPROVER_r_ok(x, sizeof(*x)) && __CPROVER_r_ok(a, sizeof(*a)) && gej_ok(a) && !a->infinity && fe_mag(x, 2))
+#ifdef LOG_GEJ_EQ_X
+__CPROVER_assigns(g_eqx_n, g_eqx_x0, g_eqx_x1, g_eqx_v0, g_eqx_v1, g_eqx_a0)
+__CPROVER_ensures(g_eqx_n == __CPROVER_old(g_eqx_n) + 1)
+__CPROVER_ensures(__CPROVER_old(g_eqx_n) == 0 ==> (FE_EQ(g_eqx_x0, *x) && g_eqx_v0 == __CPROVER_return_value && FE_KEEP(g_eqx_x1) && g_eqx_v1 == __CPROVER_old(g_eqx_v1) &&
+     FE_EQ(g_eqx_a0.x, a->x) && FE_EQ(g_eqx_a0.y, a->y) && FE_EQ(g_eqx_a0.z, a->z)))
+__CPROVER_ensures(__CPROVER_old(g_eqx_n) == 1 ==> (FE_EQ(g_eqx_x1, *x) && g_eqx_v1 == __CPROVER_return_value && FE_KEEP(g_eqx_x0) && g_eqx_v0 == __CPROVER_old(g_eqx_v0) &&
+     FE_KEEP(g_eqx_a0.x) && FE_KEEP(g_eqx_a0.y) && FE_KEEP(g_eqx_a0.z)))
+__CPROVER_ensures(__CPROVER_old(g_eqx_n) > 1 ==> (FE_KEEP(g_eqx_x0) && FE_KEEP(g_eqx_x1) && g_eqx_v0 == __CPROVER_old(g_eqx_v0) && g_eqx_v1 == __CPROVER_old(g_eqx_v1) &&
+     FE_KEEP(g_eqx_a0.x) && FE_KEEP(g_eqx_a0.y) && FE_KEEP(g_eqx_a0.z)))
+#else
+__CPROVER_assigns()
+#endif
+__CPROVER_ensures(__CPROVER_return_value == 0 || __CPROVER_return_value == 1)
 ;
 #endif
